@@ -1,0 +1,23 @@
+//go:build verif
+
+package encoding
+
+// Contracts for govc (comment-only; compiled only with -tags verif). Property C30.
+//
+// NewValuesFromQueryValues: every result value is handed to the JSON encoder as the Go value of
+// the same kind and value (int64, float64, bool, string, []byte / integer array, nil), row by row
+// and column by column; a nil row stays nil.
+//@ func NewValuesFromQueryValues
+//@   safe
+//@   requires [dest] len(dest) >= len(v)
+//@   requires [elems] forall a int :: (0 <= a && a < len(v) && v[a] != nil) ==> (forall b int :: (0 <= b && b < len(v[a].Parameters)) ==> v[a].Parameters[b] != nil)
+//@   assert after @set:rowValues[p]#1: [int64-as-is] typeis(rowValues[p], "int64") && unbox(rowValues[p], "int64") == w.I
+//@   assert after @set:rowValues[p]#2: [float-as-is] typeis(rowValues[p], "float64") && unbox(rowValues[p], "float64") == w.D
+//@   assert after @set:rowValues[p]#3: [bool-as-is] typeis(rowValues[p], "bool") && unbox(rowValues[p], "bool") == w.B
+//@   assert after @set:rowValues[p]#4: [blob-as-int-array] typeis(rowValues[p], "github.com/rqlite/rqlite/v10/command/encoding.ByteSliceAsArray") && unbox(rowValues[p], "[]byte") == w.Y
+//@   assert after @set:rowValues[p]#5: [blob-as-bytes] typeis(rowValues[p], "[]byte") && unbox(rowValues[p], "[]byte") == w.Y
+//@   assert after @set:rowValues[p]#6: [text-as-is] typeis(rowValues[p], "string") && unbox(rowValues[p], "string") == w.S
+//@   assert after @set:rowValues[p]#7: [null-as-null] rowValues[p] == nil
+//@   assert after @set:dest[n]#3: [row-in-place] len(dest[n]) == len(params)
+//@   loop 1 invariant [dest] len(dest) >= len(v)
+//@   loop 2 invariant [row] len(rowValues) == len(params) && p >= 0
